@@ -40,6 +40,8 @@ def exc_ctor_map(repo, name):
 def run(repo, rep):
     from ..pitfalls import memo_rule as _memo_rule
     _memo_rule(repo, rep, 'C14', 'C14.Z1')
+    from ..pitfalls import log_rule as _log_rule
+    _log_rule(repo, rep, 'C14', 'C14.Z2')
     hier = exc_hierarchy(repo)
     acc = repo.cls('asceprovider', 'AssociationAcceptor')
     base = repo.cls('asceprovider', 'Association')
